@@ -101,6 +101,10 @@ def HT.composeBeforeH {d : Nat} {α : Type} (a b : HT d α) : HT d α := ⟨.hom
 two classes is C20's subject; the matrices agree whenever the factors are equal) -/
 def scaleFactory {d : Nat} {α : Type} (v : Vec d) : HT d α := ⟨.nonUniformScale, ofAffine (diagM v) fun _ => 0, none⟩
 
+/-- `np.array(image_shape)` and `v - 1`, the two steps of `np.array(image_shape) - 1` -/
+def shapeVec (s : Rat × Rat) : Vec 2 := fun i => if i.val = 0 then s.1 else s.2
+def vsubOne {d : Nat} (v : Vec d) : Vec d := fun i => v i - 1
+
 /-- `np.array(image_shape) - 1` -/
 def shapeMinusOne (s : Rat × Rat) : Vec 2 := fun i => if i.val = 0 then s.1 - 1 else s.2 - 1
 
